@@ -25,7 +25,7 @@ Definition op_run (fx : fixes) (maxsz : N) (lv : live) (op : wal_op) : Z * optio
   | OAppend recs, Some l =>
     let '(rc, l', d', ms) := log_append fx l (lv_fs lv) (map to_wire recs) in (rc, Some l', d', ms)
   | OTruncate k, Some l =>
-    let '(rc, l', d', ms) := log_truncate l (lv_fs lv) k in (rc, Some l', d', ms)
+    let '(rc, l', d', ms) := log_truncate fx l (lv_fs lv) k in (rc, Some l', d', ms)
   | OTrim k, Some l =>
     let '(rc, l', d', ms) := log_trim l (lv_fs lv) k in (rc, Some l', d', ms)
   | _, None => (1%Z, None, lv_fs lv, [])
